@@ -317,7 +317,8 @@ def _run(t: str, s: int) -> Result:
             fu = exprs.first_use(k.asg)
             tensors = {nm: _spec_tensor(k.formats[nm], [m["dims"][i] for i in fu[nm]], packed[nm]) for nm in fu}
             inputs.append({"cid": cid, "tensors": tensors})
-        for backend in ["llvm"] + (["cffi"] if ki % P["c_fraction"] == 0 or ki in outside_kernels else []):
+        both = ki % P["c_fraction"] == 0 or ki in outside_kernels or group in ("literal", "inexact-literal", "big-literal")
+        for backend in ["llvm"] + (["cffi"] if both else []):
             tasks.append({"id": f"{ki}:{backend}", "op": "eval_batch", "text": k.text, "formats": k.formats,
                           "cap": cap, "backend": backend, "inputs": inputs})
     pool = Pool()
@@ -457,7 +458,8 @@ def _run(t: str, s: int) -> Result:
     float_tasks, float_meta = [], {}
     FLOATS = [0.1, -0.3, 1e-3, 3.7e5, 2.0 / 3.0, -1.25e-7, 12345.678, 1e10, -7.0, 0.5]
     for ki, (k, cap, group) in enumerate(kernel_list):
-        if group in ("broadcast-target",) or ki in faulty_kernels or ki % (2 * P["c_fraction"]) != 0:
+        if group in ("broadcast-target",) or ki in faulty_kernels or \
+                (ki % (2 * P["c_fraction"]) != 0 and group not in ("literal", "inexact-literal")):
             continue
         fu = exprs.first_use(k.asg)
         inputs = []
